@@ -30,6 +30,7 @@ type chainRun struct {
 	// per node: blocks accepted (G_n of the C02 model), header-only accepted set
 	accepted  []map[int]bool
 	hdrOnly   []map[int]bool
+	pivoted   map[int]bool         // per node: a fast-sync pivot has been committed
 	pivotHead map[int]bool         // per node: the head was set by a fast-sync pivot and no executed block has followed yet
 	fast      map[int]map[int]bool // per node: blocks stored through the fast-sync path (body + receipts, not executed)
 	prevTD    []*big.Int
@@ -191,6 +192,13 @@ func (c *chainRun) apply(i int, op Op) {
 	before := n.HeadID()
 	switch op.Kind {
 	case "insert":
+		if len(c.fast[op.Node]) > 0 && !c.pivoted[op.Node] {
+			// a fast-syncing node imports nothing through InsertChain before its pivot is
+			// committed (the fetcher is off, the downloader is the only importer): such a
+			// history (e.g. a shrunk one that lost its pivot) is not one the node can see
+			c.col.Inc("insert_skipped_before_the_pivot_of_a_fast_sync")
+			break
+		}
 		idx, err, died, pan := n.Insert(op.Blocks)
 		if pan != "" {
 			c.add("import-panic", i, "InsertChain panicked: %s", firstLines(pan, 14))
@@ -305,6 +313,10 @@ func (c *chainRun) apply(i int, op Op) {
 			c.pivotHead = map[int]bool{}
 		}
 		c.pivotHead[op.Node] = true
+		if c.pivoted == nil {
+			c.pivoted = map[int]bool{}
+		}
+		c.pivoted[op.Node] = true
 		c.col.Add("state_entries_synced", int64(fetched))
 		c.col.Inc("probe_fast_sync_pivot_committed")
 	case "sethead":
@@ -356,6 +368,7 @@ func (c *chainRun) apply(i int, op Op) {
 			// last executed head. Outside the properties checked here: counted, not judged.
 			c.col.Inc("probe_restart_right_after_pivot_reopened_at_last_executed_head")
 			c.pivotHead[op.Node] = false
+			c.pivoted[op.Node] = false // the node is back in its fast-sync stage: no InsertChain until a pivot is committed again
 			break
 		}
 		if after := n.HeadID(); after != before {
@@ -381,6 +394,9 @@ func (c *chainRun) apply(i int, op Op) {
 		n.BC = bc
 		c.col.Inc("fault_crash_restart")
 		c.prevTD[op.Node] = nil
+		if c.pivotHead[op.Node] {
+			c.pivotHead[op.Node], c.pivoted[op.Node] = false, false
+		}
 	case "mutant":
 		c.applyMutant(i, op)
 		return
